@@ -146,6 +146,33 @@ def run(ctx):
             # little redundancy: dof 0, 1 or 2
             net, truth, meta = netgen.make_network(ctx.rng, dim=2, n=3, n_fixed=2, extra=ctx.rng.choice([0.0, 0.0, 0.2]))
             meta["kind"] = "2d-minimal"
+        ids = [p["id"] for p in net["points"]]
+        if meta.get("dim", 2) != 1 and ctx.rng.random() < 0.5:
+            # a station whose single direction is dropped by the revision, followed by distances of different quality
+            st = ctx.rng.choice(ids)
+            others = [i for i in ids if i != st]
+            ctx.rng.shuffle(others)
+            obs = [{"t": "direction", "to": others[0], "val": 12.3456, "stdev": 10.0}]
+            for j, sd in zip(others[:3], ctx.rng.sample([3.0, 6.0, 12.0, 25.0], 3)):
+                ob = {"t": "distance", "to": j, "stdev": sd}
+                ob["val"] = netgen.obs_value(ob, truth, 0.0, st) + ctx.rng.gauss(0, 1) * sd * 1e-3
+                obs.append(ob)
+            net["clusters"].append({"kind": "obs", "from": st, "obs": obs})
+            meta["kind"] += "+passive-first"
+        if ctx.rng.random() < 0.2:
+            # points determined by observed coordinates only: covariance between x and y is exactly zero
+            k = ctx.rng.randint(2, 3)
+            pts = netgen.gen_points(ctx.rng, k, 2)
+            truth = {"C%d" % i: pts[i] for i in range(k)}
+            net = {"attrs": {"axes-xy": "ne", "angles": "left-handed"}, "params": dict(net["params"]), "description": "observed coordinates",
+                   "points": [{"id": "C%d" % i, "adj": "xy"} for i in range(k)], "clusters": []}
+            for rep in range(2):
+                obs = [{"t": "point", "id": "C%d" % i, "x": pts[i][0] + ctx.rng.gauss(0, 0.004), "y": pts[i][1] + ctx.rng.gauss(0, 0.008)} for i in range(k)]
+                vals = []
+                for i in range(k):
+                    vals += [16.0, 64.0] if rep == 0 else [25.0, 100.0]
+                net["clusters"].append({"kind": "coordinates", "obs": obs, "cov": {"dim": 2 * k, "band": 0, "vals": vals}})
+            meta = {"dim": 2, "kind": "observed-coordinates"}
         conf_pr = ctx.rng.choice([0.95, 0.99, 0.9, 0.5, 0.999, round(ctx.rng.uniform(0.05, 0.995), 3)])
         sigma_act = ctx.rng.choice(["aposteriori", "apriori"])
         sigma_apr = ctx.rng.choice([10.0, 1.0, 5.0, 2.5, 30.0])
